@@ -45,10 +45,12 @@ def DepSound (P : Params) : Prop :=
       startsWith q P.output = true ∨ (q ≠ p ∧ q ∉ (P.T cfg fs p).deps ∧ fs q ≠ none)) →
     P.T cfg fs' p = P.T cfg fs p
 
-/-- files present in the output folder before the first run are foreign: none sits where a
-source's output would go -/
+/-- files present in the output folder before the first run are foreign: none sits at or
+below a path where a source's output would go -/
 def InitClean (P : Params) (init : Fs) : Bool :=
-  init.all fun e => !(startsWith e.1 P.output) || !(P.isLua (P.input ++ e.1.drop P.output.length))
+  init.all fun e => !(startsWith e.1 P.output) ||
+    (List.range (e.1.length + 1)).all fun n =>
+      !(startsWith (e.1.take n) P.output) || !(P.isLua (P.input ++ (e.1.take n).drop P.output.length))
 
 /-- well-formed project: input and output folders are disjoint, `T` is dependency-sound, the
 output folder holds only foreign files at the start -/
